@@ -8,6 +8,7 @@ import SpecVerif.Model.Arma
 import SpecVerif.Model.Burg
 import SpecVerif.Model.Minvar
 import SpecVerif.Model.Estimators
+import SpecVerif.Model.Marple
 import SpecVerif.Model.Eigen
 import SpecVerif.Model.Mtm
 import SpecVerif.Model.ClassGlue
@@ -345,6 +346,13 @@ def handle (cmd : String) (hd : List String) (vs : List (List K)) : Reply K :=
       match r with
       | some (a, e) => .ok [a, [e]]
       | none => .error "singular"
+  | "arcovarmr" | "modcovarmr" =>
+      -- the transliterated Marple recursions (Model/Marple.lean); `err <exit>` names the exit taken
+      let x := vecAt vs 0
+      let p := natAt hd 0
+      match (if cmd = "arcovarmr" then arcovarMarpleCore x p else modcovarMarpleCore x p) with
+      | .ok (a, e) => .ok [a, [e]]
+      | .error e => .error e
   | "arma" =>
       match armaEstimate (vecAt vs 0) (natAt hd 0) (natAt hd 1) (natAt hd 2) with
       | .ok (a, b, rho) => .ok [a, b, [rho]]
